@@ -14,6 +14,15 @@ HOOK_COMMITS = []
 PENDING = {}
 
 PROPS = {
+    "C03": dict(
+        sim="splitsim", props_file="Props/C03.v", shrink=False,
+        n_quick=60, n_thorough=600, shards_quick=8, shards_thorough=16,
+        technique="Coq proof (split rule theorems over the split table regenerated from splits.go) + in-kernel differential correspondence on the real chain at the split height",
+        level_text="Machine-checked: the split table and required split in /repo are the consensus ones (constants translator + reflexivity), nothing but the BSV split header passes the chain-identity check at 556767 on any branch, the BTC/BCH split headers are refused as wrong-chain (unknown parent, or at their height), the BSV header passes, VerifyHeader accepts only the BSV split header. Tied to the code by offering the real BSV and BCH split headers and random headers at height 556767 of the real fixture chain, on the main chain and on forks created below, with known/unknown parents, protection on/off, and by VerifyHeader on the same headers.",
+        level_note="The BTC split header itself cannot be constructed offline (its 80 bytes are not in the repository): its refusal is covered by the theorem over the regenerated table and by the BCH header exercising the same rule. The peer-side use of VerifyHeader (verified only on the BSV reply, else disconnected) is checked under C13's harness (netsim) and listed there.",
+        assumptions=["block hashes are inputs (SHA-256d not modelled)", "heights are parent height + 1 as the repository computes them (C09)"],
+        mismatch_meaning="ProcessHeader's chain-identity answer (wrong chain / unknown / let through) or VerifyHeader's answer differs from the split rules for this header",
+    ),
     "C02": dict(
         sim="powsim", props_file="Props/C02.v", shrink=False,
         n_quick=200, n_thorough=3000, shards_quick=16, shards_thorough=16,
